@@ -62,6 +62,36 @@ check('C01', 'specs/BlobWrite.tla + specs/BlobWriteTrace.tla + harness/c01_blob.
       'previous one; delete() racing with an in-flight save is outside the quantifier (noted in DESIGN).',
       'TLC exhaustive model with liveness + TLC trace validation of real writer schedules', 'DESIGN.md 5/C01')
 
+check('C18', 'specs/BlobBook.tla + specs/BlobBookTrace.tla + harness/c18_blobbook.py',
+      'Leg A: TLC explores BlobBook.tla - deliveries in their real steps (executor file write, completed-callback, queued database '
+      'write), pending rows, API deletions with and without the row, files removed/added behind the daemon, a process death at '
+      'any point (between file write and database write, inside the three awaits of setup()), start-up transcribed await by '
+      'await - 3 blobs, <=6 (8) operations, against the four clauses of the property with reachability witnesses. Leg B: 220 (1500) '
+      'TLC -simulate behaviours are replayed action by action into a real BlobManager + SQLiteStorage (sqlite file) + blob '
+      'directory under the deterministic loop (crash = abandon loop and objects) and the real (listdir, blob table, '
+      'completed_blob_hashes) is compared with the model state after every action (difference = spec drift, reported). Leg C: the '
+      'observations of those replays and of 120 (800) longer seeded histories over 4 blobs are validated by TLC against '
+      'BlobBookTrace.tla: the clauses on the real state right after every start-up, the exactness clause on every second clean start-up.',
+      'Trusted: a crash loses exactly the unfinished executor jobs and memory (sqlite transaction = one job); no external file '
+      'change inside the three steps of one start-up.',
+      'TLC exhaustive model + model behaviours replayed into the real blob manager + TLC trace validation', 'DESIGN.md 5/C18')
+
+check('C05', 'specs/TxWire.tla + harness/c05_txwire.py',
+      'The Bitcoin/LBRY transaction encoding (compact size, fixed-width LE integers, push-data prefixes, every script kind the public '
+      'constructors build, segwit marker/flag/witness, txid preimage) is an explicit TLA+ layout function with an inverse parser. TLC '
+      'checks Parse(Ser(tx))=tx, Ser(Parse(b))=b, the sans-witness/txid-preimage laws and the size law on every enumerated shape: counts '
+      '{1,2,252,253,300}^2, every push-data and compact-size boundary of every script kind, every combination of 32-bit boundary values '
+      'with 64-bit boundary amounts, all pairs of 12 witness stacks, legacy and segwit, plus seeded random shapes. Every TLC state is one '
+      'case for the real code: the transaction is built through the public constructors and tx.raw must equal the rendered layout, '
+      'Transaction(raw) is compared field by field and must re-serialise identically, tx.id must be the reversed double SHA-256 of the '
+      'layout without witness; BCDataStream primitives are compared up to 2^64-1 and the main-net transactions of the upstream test module '
+      'must be reproduced byte for byte by the specification from the fields the real parser extracted.',
+      'Trusted: hashlib SHA-256. Payload bytes are opaque seeded random bytes; only counts, prefixes, widths and field order are decided in '
+      'TLA+. The library cannot build segwit transactions, so segwit is exercised on the parse/id path with bytes rendered from the '
+      'specification; no main-net segwit sample exists in the pinned test module. Bounded: <=300 inputs/outputs, payloads <= ~65.5 KB.',
+      'TLA+ layout-function spec, TLC case enumeration with round-trip invariants, every state replayed against the real serialiser/parser/txid',
+      'DESIGN.md 5/C05')
+
 NOT_YET = 'check not built yet in this round (design in DESIGN.md section 5); will be claimed once its driver exists'
 ALL = [f'C{i:02d}' for i in range(1, 21)]
 
